@@ -603,18 +603,26 @@ Definition preb (w : world) (o : op) : bool :=
         negb (length inlets =? length outlets) || pre_join w2 (combine inlets outlets)
       else true
   | OUnitInsert u a =>
+      (* one fixed outlet; one fixed inlet or a variable number of inlets (the docstring example:
+         M1.insert(P1-0) appends the stream to the mixer's inlets); the stream has a sink, and a source
+         when the unit's single inlet is to be put in its place *)
       match resolve w a with
       | RObj s =>
-          pfixed w SOut u && (psize w SOut u =? 1) && pfixed w SIn u && (psize w SIn u =? 1) &&
-          match ptr w SIn s, ptr w SOut s, hd_arg (ports w SOut u) with
-          | Some v, Some t, Some y =>
+          pfixed w SOut u && (psize w SOut u =? 1) && (negb (pfixed w SIn u) || (psize w SIn u =? 1)) &&
+          match ptr w SIn s, hd_arg (ports w SOut u) with
+          | Some v, Some y =>
               pre_replace w SIn v (RObj s) (RObj y) &&
               (let w1 := fst (replace w SIn v (RObj s) (RObj y)) in
-               match hd_arg (ports w1 SIn u) with
-               | Some z => pre_replace w1 SOut t (RObj s) (RObj z)
-               | None => true
-               end)
-          | _, _, _ => false
+               if pfixed w1 SIn u then
+                 match ptr w SOut s with
+                 | Some t => match hd_arg (ports w1 SIn u) with
+                             | Some z => pre_replace w1 SOut t (RObj s) (RObj z)
+                             | None => true
+                             end
+                 | None => false
+                 end
+               else pre_insert w1 SIn u (RObj s))
+          | _, _ => false
           end
       | _ => true
       end
